@@ -912,3 +912,110 @@ Proof.
     rewrite Forall_forall in Hds. apply Hds. exact Hx.
   - split; [exact H1|]. rewrite <- Hdg. exact H2.
 Qed.
+
+(* ------------------------------------------------------------------ *)
+(* glue: the WriteBatch loop and the retry after GSO was disabled       *)
+(* ------------------------------------------------------------------ *)
+
+Lemma skipn_add {A} (l : list A) a b : skipn a (skipn b l) = skipn (b + a) l.
+Proof.
+  revert l; induction b as [|b IH]; intros l; [reflexivity|].
+  destruct l as [|x l]; [now rewrite !skipn_nil|]. cbn [skipn Nat.add]. apply IH.
+Qed.
+
+Definition accepts_some (r : wres) : Prop := match r with WOk k => (0 < k)%nat | WErr => False end.
+
+(* whatever positive numbers of messages the kernel accepts per call: every
+   message is handed over exactly once, in order, and no error is reported *)
+Lemma send_loop_complete {A} : forall fuel (msgs : list A) start oracle,
+  Forall accepts_some oracle ->
+  (length (skipn start msgs) <= length oracle)%nat ->
+  (length (skipn start msgs) <= fuel)%nat ->
+  send_loop fuel msgs start oracle = (skipn start msgs, false).
+Proof.
+  induction fuel as [|f IH]; intros msgs start oracle Hpos Ho Hf.
+  - cbn [send_loop]. destruct (skipn start msgs); [reflexivity|cbn [length] in Hf; lia].
+  - destruct oracle as [|r o].
+    + cbn [send_loop]. destruct (skipn start msgs); [reflexivity|cbn [length] in Ho; lia].
+    + inversion Hpos as [|? ? Hr Hpos']; subst. cbn [send_loop].
+      destruct r as [k|]; [|contradiction]. cbn [accepts_some] in Hr.
+      set (rest := skipn start msgs) in *.
+      destruct (Nat.eqb (Nat.min k (length rest)) (length rest)) eqn:E.
+      * apply Nat.eqb_eq in E. rewrite E, firstn_all. reflexivity.
+      * apply Nat.eqb_neq in E. assert (Hk : Nat.min k (length rest) = k) by lia. rewrite Hk.
+        assert (Hs : skipn (start + k) msgs = skipn k rest).
+        { unfold rest. rewrite skipn_add. reflexivity. }
+        rewrite (IH msgs (start + k)%nat o Hpos').
+        -- rewrite Hs, firstn_skipn. reflexivity.
+        -- rewrite Hs, skipn_length. cbn [length] in Ho. lia.
+        -- rewrite Hs, skipn_length. lia.
+Qed.
+
+(* with any behaviour of the kernel (errors, zero counts): what was handed over
+   is a prefix of the vector: nothing skipped, repeated or reordered *)
+Lemma send_loop_prefix {A} : forall fuel (msgs : list A) start oracle,
+  exists suffix, fst (send_loop fuel msgs start oracle) ++ suffix = skipn start msgs.
+Proof.
+  induction fuel as [|f IH]; intros msgs start oracle.
+  - exists (skipn start msgs). reflexivity.
+  - destruct oracle as [|r o]; [exists (skipn start msgs); reflexivity|].
+    cbn [send_loop]. destruct r as [k|]; [|exists (skipn start msgs); reflexivity].
+    set (rest := skipn start msgs).
+    destruct (Nat.eqb (Nat.min k (length rest)) (length rest)) eqn:E.
+    + cbn [fst]. exists (skipn (Nat.min k (length rest)) rest). apply firstn_skipn.
+    + destruct (IH msgs (start + Nat.min k (length rest))%nat o) as (suf & Hs).
+      destruct (send_loop f msgs (start + Nat.min k (length rest)) o) as [t e]. cbn [fst] in *.
+      exists suf. rewrite <- app_assoc, Hs.
+      replace (skipn (start + Nat.min k (length rest)) msgs) with (skipn (Nat.min k (length rest)) rest).
+      * apply firstn_skipn.
+      * unfold rest. rewrite skipn_add. reflexivity.
+Qed.
+
+Lemma unmerged_ok c : wf_cfg c -> forall bufs pre,
+  map m_data (unmerged c pre bufs) = map b_data bufs /\
+  Forall (fun m => m_gso m = [] /\ m_oob m = c_src c /\ m_addr m = c_addr c) (unmerged c pre bufs).
+Proof.
+  intros Hwf. unfold wf_cfg in Hwf.
+  assert (Hs : forall p, set_src_over c p = (c_src c, [])).
+  { intros p. unfold set_src_over. destruct (c_oobcap c <? len (c_src c)) eqn:E; [|reflexivity].
+    apply N.ltb_lt in E. pose proof (N.le_0_l conn_gsoControlSize). lia. }
+  induction bufs as [|b r IH]; intros pre; cbn [unmerged map].
+  - split; constructor.
+  - rewrite Hs. destruct (IH (tl pre)) as [H1 H2]. cbn [map m_data]. split.
+    + f_equal. exact H1.
+    + constructor; [cbn; auto|exact H2].
+Qed.
+
+Lemma wire_no_gso ms : Forall (fun m => m_gso m = []) ms -> wire ms = map m_data ms.
+Proof.
+  induction 1 as [|m ms Hm _ IH]; [reflexivity|].
+  unfold wire in *. cbn [flat_map map]. rewrite IH. unfold kernel_send, gso_of. rewrite Hm. reflexivity.
+Qed.
+
+(* After the kernel refused segmentation offload (EIO) the batch is sent again
+   from the same pooled vector, one message per datagram: no message of the
+   second attempt carries a UDP_SEGMENT control message any more, each is
+   addressed to the endpoint with the sticky source, and the wire image of the
+   second attempt is the batch; what the first attempt handed over before the
+   error is a prefix of the merged vector. *)
+Theorem gso_disable_retry_transparent : forall c bufs oracle1 oracle2,
+  wf_cfg c ->
+  Forall accepts_some oracle2 -> (length bufs <= length oracle2)%nat ->
+  let '(t1, t2, e2) := send_with_gso_disable c bufs oracle1 oracle2 in
+  e2 = false /\
+  wire t2 = map b_data bufs /\
+  Forall (fun m => m_gso m = [] /\ m_oob m = c_src c /\ m_addr m = c_addr c) t2 /\
+  exists suffix, t1 ++ suffix = coalesce c bufs.
+Proof.
+  intros c bufs oracle1 oracle2 Hwf Hpos Hlen. unfold send_with_gso_disable.
+  destruct (send_loop_prefix (S (length (coalesce c bufs))) (coalesce c bufs) 0 oracle1) as (suf & Hsuf).
+  destruct (send_loop (S (length (coalesce c bufs))) (coalesce c bufs) 0 oracle1) as [t1 e1]. cbn [fst] in Hsuf.
+  set (pre := coalesce c bufs ++ _).
+  destruct (unmerged_ok c Hwf bufs pre) as [Hd Hall].
+  assert (Hl : length (unmerged c pre bufs) = length bufs).
+  { rewrite <- (map_length m_data), Hd, map_length. reflexivity. }
+  rewrite send_loop_complete; cbn [skipn]; try (rewrite Hl; lia); [|exact Hpos].
+  split; [reflexivity|]. split; [|split; [exact Hall|exists suf; exact Hsuf]].
+  rewrite wire_no_gso, Hd; [reflexivity|].
+  rewrite Forall_forall in *. intros m Hm. apply (Hall m Hm).
+Qed.
